@@ -202,12 +202,12 @@ pub const MULTI_RULES: &[&str] = &[
 
 pub fn run(id: &str, cfg: &RunCfg) -> PropResult {
     let (p, quick, thorough) = prop(id);
-    let report = if let Some(case) = cfg.case.as_ref().filter(|c| c.starts_with('u') || c.starts_with('k') || c.starts_with('v') || c.starts_with('i')) {
+    let report = if let Some(case) = cfg.case.as_ref().filter(|c| c.starts_with('u') || c.starts_with('k') || c.starts_with('v') || c.starts_with('i') || c.starts_with('q')) {
         let mut it = case[1..].split(':');
         let seed: u64 = it.next().and_then(|s| s.parse().ok()).unwrap_or(cfg.seed);
         let idx: u64 = it.next().and_then(|s| s.parse().ok()).unwrap_or(0);
         let mut r = crate::report::Report::default();
-        r.add(idx, if case.starts_with('u') { super::racelanes::suspend_race_case(seed, idx) } else if case.starts_with('v') { super::racelanes::move_cursor_finish_case(seed, idx) } else if case.starts_with('i') { super::racelanes::iter_finish_case(seed, idx) } else { super::racelanes::ticker_race_case(seed, idx) });
+        r.add(idx, if case.starts_with('u') { super::racelanes::suspend_race_case(seed, idx) } else if case.starts_with('v') { super::racelanes::move_cursor_finish_case(seed, idx) } else if case.starts_with('i') { super::racelanes::iter_finish_case(seed, idx) } else if case.starts_with('q') { super::racelanes::sequential_bars_case(seed, idx) } else { super::racelanes::ticker_race_case(seed, idx) });
         r
     } else if let Some(case) = cfg.case.as_ref().filter(|c| c.starts_with('c')) {
         let mut it = case[1..].split(':');
@@ -242,6 +242,11 @@ pub fn run(id: &str, cfg: &RunCfg) -> PropResult {
             r.merge(crate::report::run_parallel_tagged('v', nv, workers(), |i| super::racelanes::move_cursor_finish_case(cfg.seed, i)));
             let ni = if cfg.thorough { 200_000 } else { 4_000 };
             r.merge(crate::report::run_parallel_tagged('i', ni, workers(), |i| super::racelanes::iter_finish_case(cfg.seed, i)));
+        }
+        if id == "C01" || id == "C19" {
+            // usage part: standalone bars one after the other on the same terminal
+            let nq = if cfg.thorough { 600_000 } else { 8_000 };
+            r.merge(crate::report::run_parallel_tagged('q', nq, workers(), |i| super::racelanes::sequential_bars_case(cfg.seed, i)));
         }
         if id == "C01" {
             // schedule part: a steady-tick thread parked in front of a lock request while the bar is finished
